@@ -957,5 +957,27 @@ def acaLr (A : Mat α) (eps tol : α) (maxiter : Nat) (rnd : List Nat) : Except 
     { crosses := [], i := A.rows / 2, k := 0, skip := 0, tolc := 0, rnd := rnd, log := [], piv := [] }
 end ACA
 
+/-! ### basis extension of the greedy Tucker approximation (tensor.py `gta`, 562-570) -/
+section Greedy
+variable [Zero α] [Add α] [Sub α] [Mul α] [Div α] [LT α] [DecidableLT α]
+
+/-- `y = v - U.dot(U.T.dot(v))` -/
+def gsResidual (U : Mat α) (v : Nat → α) : Nat → α :=
+  fun i => v i - sumN U.cols (fun c => U.get i c * sumN U.rows (fun k => U.get k c * v k))
+
+/-- one pass of the loop body `for j in range(d)` of `gta`:
+```
+y = vs[j] - U[j].dot(U[j].T.dot(vs[j])); ny = np.linalg.norm(y)
+if ny < 1e-14: continue            # skip almost zero vectors
+U[j] = np.column_stack((U[j], y / ny))
+```
+`ny` (a square root) is an input of the model; `thr` is the literal `1e-14`.  `gta_ls` (675-682) has the same
+body without the skip (`thr = none`). -/
+def gtaExtend (thr : Option α) (U : Mat α) (v : Nat → α) (ny : α) : Mat α :=
+  let skip := match thr with | some t => decide (ny < t) | none => false
+  if skip then U
+  else ⟨U.rows, U.cols + 1, fun i c => if c < U.cols then U.get i c else gsResidual U v i / ny⟩
+end Greedy
+
 end Basic
 end Pyiga.Tensor
